@@ -334,6 +334,33 @@ def replay_c18(state):
                 obs["reprs"].append(dict(how=how, **_repr_obs(x, ns)))
         except Exception as exc:  # noqa: reserved names etc.
             pass
+    # literals outside the comfortable range (every document contributes the same few elements:
+    # cheap, and they are de-duplicated by their repr text)
+    if state.get("size", 9) == 0 or state.get("src") == "seed" and not state.get("doc", {}).get("properties"):
+        from statham.schema.elements import Element as _E2, Array as _A2, String as _S2
+        big = 10 ** 400
+        for mk in (lambda n: _E2(maximum=n), lambda n: _E2(enum=[n, [n]]), lambda n: _A2(_S2(), default=[{"a": n}]),
+                   lambda n: _E2(const=-n, multipleOf=1.5), lambda n: _E2(properties={"a": Property(_E2(minimum=n))})):
+            try:
+                small, huge = mk(7), mk(big)
+                o = {"how": "extreme-literal", "repr": "", "evaluates": False, "eq": False, "kws": [],
+                     "e": drive.project_element(small)}
+                o["r"] = o["e"]      # the structure is that of the small twin; the flags are the huge one's
+                try:
+                    text = repr(huge)
+                    o["repr"] = text[:120]
+                    tree = ast.parse(text, mode="eval")
+                    if isinstance(tree.body, ast.Call):
+                        o["kws"] = [k.arg for k in tree.body.keywords if k.arg]
+                    back = eval(compile(tree, "<repr>", "eval"), dict(ns))  # noqa: S307
+                    o["evaluates"] = True
+                    o["eq"] = bool(back == huge)
+                except Exception as exc:  # noqa
+                    o["err"] = type(exc).__name__ + ": " + str(exc)[:100]
+                    o["repr"] = o["repr"] or "<repr raised>"
+                obs["reprs"].append(o)
+            except Exception:  # noqa
+                pass
     # unbound property wrappers
     props = getattr(el, "properties", None)
     if isinstance(props, dict):
